@@ -419,6 +419,9 @@ def report(prop, tier, seed, results, wall, write=True):
         print(f"   obligation {r['id']}: {f['kind']} at '{f['label']}' {f.get('site','')}: {f.get('concrete', f)['detail'][:300]}")
     for r in bad:
         print(f"INCONCLUSIVE {r['id']}: {r['status']}: {'; '.join(str(x) for x in r['reasons'][:2])[:400]}")
+        for f in r["failures"]:
+            if not f["reproduced"]:
+                print(f"   not reproduced: {f['kind']} at '{f['label']}' {f.get('site','')}: {f['detail'][:300]} | {json.dumps(f['assignment'])[:400]}")
     proved = sum(1 for r in results if r["status"] == "proved")
     gating = [r for r in results if r["gating"]]
     print(f"{prop} [{tier}] obligations={len(results)} proved={proved} violated={sum(1 for r in results if r['status']=='violated')} "
